@@ -3,7 +3,8 @@
     [NioSetsockoptSyscall::setsockopt] (setsockopt.rs) and [NioCloseSyscall::close] (close.rs),
     against a modelled kernel: a table [fd -> (SO_RCVTIMEO, SO_SNDTIMEO)] of live sockets with
     lowest-free descriptor allocation. Time values are [(tv_sec, tv_usec)] pairs; cached limits are
-    nanosecond counts as computed by [get_time_limit] (Misc/Time.v). *)
+    nanosecond counts as computed by [get_time_limit] (Misc/Time.v). The model is the code after the
+    repairs of [setsockopt_negative_sec_aborts] and [limit_on_closed_fd_aborts]. *)
 From OCV Require Import Base.Prelude Misc.Time.
 Open Scope Z_scope.
 
@@ -77,15 +78,32 @@ Inductive obs :=
 | OAbort                 (* panic inside an extern "C" function: the process is gone *)
 | ODiverged.             (* watchdog; never produced by the model *)
 
-(** What Linux [sock_set_timeout] stores for an accepted value: a negative [tv_sec] is accepted and
-    stored as 0 (reads back as (0, 0)). Tick rounding and the clamp for astronomically large
-    [tv_sec] are outside the model; [wf] keeps inputs away from both. *)
-Definition kernel_store (sec usec : Z) : tv := if sec <? 0 then (0, 0) else (sec, usec).
+(** What Linux [sock_set_timeout] stores for an accepted value. A negative [tv_sec] is accepted and
+    stored as a ZERO timeout: operations on the socket time out at once, and getsockopt reports it as
+    (0, 0), exactly like "no timeout". The table keeps the marker [ZERO_TIMEOUT] for it; [read_back]
+    is what getsockopt answers. Tick rounding and the clamp for astronomically large [tv_sec] are
+    outside the model; [wf] keeps inputs away from both. *)
+Definition ZERO_TIMEOUT : tv := (-1, 0).
+Definition kernel_store (sec usec : Z) : tv := if sec <? 0 then ZERO_TIMEOUT else (sec, usec).
+Definition read_back (t : tv) : tv := if fst t <? 0 then (0, 0) else t.
+
+(** The code before two repairs, kept as parameters of the model ([current] is the code as it is):
+    - [v_negsec_panics]: [get_time_limit] panicked on a negative [tv_sec] (finding
+      [setsockopt_negative_sec_aborts]); it now answers the shortest limit, 1 ns;
+    - [v_badfd_panics]: [recv_time_limit]/[send_time_limit] panicked when getsockopt failed with
+      EBADF (finding [limit_on_closed_fd_aborts]); they now answer "no limit" without caching. *)
+Record version := { v_negsec_panics : bool; v_badfd_panics : bool }.
+Definition current : version := {| v_negsec_panics := false; v_badfd_panics := false |}.
+Definition before_negsec_repair : version := {| v_negsec_panics := true; v_badfd_panics := false |}.
+Definition before_badfd_repair : version := {| v_negsec_panics := false; v_badfd_panics := true |}.
+
+Definition time_limit_of (ver : version) (sec usec : Z) : option Z :=
+  if v_negsec_panics ver && (sec <? 0) then None else get_time_limit sec usec.
 
 (** Branch tags, reported by the run for coverage and for recognising listed findings. *)
 Inductive tag := TOverwrite | TFill | THit | TEvict | TNegSec | TBadFd | TSaturate.
 
-Definition step (s : state) (o : op) : state * obs * list tag :=
+Definition step_gen (ver : version) (s : state) (o : op) : state * obs * list tag :=
   match o with
   | Socket =>
       let fd := lowest_free (st_open s) in
@@ -98,12 +116,13 @@ Definition step (s : state) (o : op) : state * obs * list tag :=
           else
             let s1 := set_open (ainsert fd (upd w (kernel_store sec usec) o) (st_open s)) s in
             (* r = 0: the hook caches get_time_limit of the caller's timeval, overwriting *)
-            match get_time_limit sec usec with
-            | None => (s1, OAbort, [TNegSec])                    (* expect("overflow") *)
+            match time_limit_of ver sec usec with
+            | None => (s1, OAbort, if sec <? 0 then [TNegSec] else [])     (* expect("overflow") *)
             | Some v =>
                 (set_cache w (ainsert fd v (cache w s1)) s1, ORet 0,
                  (if amem fd (cache w s) then [TOverwrite] else [])
-                 ++ (if v =? U64MAX then [TSaturate] else []))
+                 ++ (if v =? U64MAX then [TSaturate] else [])
+                 ++ (if sec <? 0 then [TNegSec] else []))
             end
       end
   | Limit fd w =>
@@ -111,9 +130,13 @@ Definition step (s : state) (o : op) : state * obs * list tag :=
       | Some v => (s, OVal v, [THit])
       | None =>
           match alookup fd (st_open s) with
-          | None => (s, OAbort, [TBadFd])                        (* getsockopt: EBADF -> panic *)
+          | None =>
+              (* getsockopt: EBADF -> "no limit", nothing cached (before the repair: panic) *)
+              if v_badfd_panics ver then (s, OAbort, [TBadFd]) else (s, OVal U64MAX, [TBadFd])
           | Some o =>
-              match get_time_limit (fst (sel w o)) (snd (sel w o)) with
+              (* the value getsockopt reports *)
+              let t := read_back (sel w o) in
+              match time_limit_of ver (fst t) (snd t) with
               | None => (s, OAbort, [])
               | Some v => (set_cache w (ainsert fd v (cache w s)) s, OVal v, [TFill])
               end
@@ -122,7 +145,7 @@ Definition step (s : state) (o : op) : state * obs * list tag :=
   | KGet fd w =>
       match alookup fd (st_open s) with
       | None => (s, ORet (-1), [TBadFd])
-      | Some o => (s, OTv (fst (sel w o)) (snd (sel w o)), [])
+      | Some o => (s, OTv (fst (read_back (sel w o))) (snd (read_back (sel w o))), [])
       end
   | Close fd =>
       (* both caches forget the descriptor, then the inner close *)
@@ -134,17 +157,20 @@ Definition step (s : state) (o : op) : state * obs * list tag :=
       end
   end.
 
+Definition step : state -> op -> state * obs * list tag := step_gen current.
+
 (** A run stops at the first abort. *)
-Fixpoint run_from (s : state) (ops : list op) : list obs :=
+Fixpoint run_from_gen (ver : version) (s : state) (ops : list op) : list obs :=
   match ops with
   | [] => []
   | o :: ops' =>
-      let '(s', r, _) := step s o in
+      let '(s', r, _) := step_gen ver s o in
       match r with
       | OAbort => [OAbort]
-      | _ => r :: run_from s' ops'
+      | _ => r :: run_from_gen ver s' ops'
       end
   end.
+Definition run_from : state -> list op -> list obs := run_from_gen current.
 
 Fixpoint tags_from (s : state) (ops : list op) : list tag :=
   match ops with
